@@ -37,6 +37,7 @@ type hitCase struct {
 	Size      int    `json:"size"`
 	Fault     int    `json:"fault"`
 	MaxBody   int    `json:"maxbody"`
+	Rstatus   int    `json:"rstatus"`
 }
 
 type recBody struct {
@@ -84,16 +85,22 @@ type hitRT struct {
 	bodies   []*recBody
 	respHdr  http.Header
 	payload  []byte
+	lastLen  int // body length of the most recent request
 }
 
 func (rt *hitRT) RoundTrip(req *http.Request) (*http.Response, error) {
 	rt.calls++
+	rt.lastLen = 0
+	if req.Body != nil {
+		buf, _ := io.ReadAll(req.Body)
+		req.Body.Close()
+		rt.lastLen = len(buf)
+		if rt.calls == 1 {
+			rt.firstBuf = buf
+		}
+	}
 	if rt.calls == 1 {
 		rt.first = req
-		if req.Body != nil {
-			rt.firstBuf, _ = io.ReadAll(req.Body)
-			req.Body.Close()
-		}
 	}
 	if rt.c.Transport == "error" {
 		return nil, errors.New("scripted transport failure")
@@ -104,12 +111,22 @@ func (rt *hitRT) RoundTrip(req *http.Request) (*http.Response, error) {
 			Header: hdr, Body: b, Request: req, ContentLength: -1}
 	}
 	if rt.calls <= rt.c.Chain {
-		return mk(302, http.Header{"Location": {fmt.Sprintf("http://verif.invalid/hop%d", rt.calls)}}, &recBody{fault: -1}), nil
+		code := rt.c.Rstatus
+		if code == 0 {
+			code = 302
+		}
+		return mk(code, http.Header{"Location": {fmt.Sprintf("http://verif.invalid/hop%d", rt.calls)}}, &recBody{fault: -1}), nil
 	}
 	return mk(rt.c.Status, rt.respHdr, &recBody{data: rt.payload, fault: rt.c.Fault}), nil
 }
 
 func runHitCase(c *hitCase, seed int64) KV {
+	if c.Rstatus == 0 {
+		c.Rstatus = 302 // cases drawn by the driver leave the kind of redirect open
+		if c.Chain > 0 && seed%3 == 0 {
+			c.Rstatus = []int{301, 303, 307, 308}[seed%4]
+		}
+	}
 	payload := make([]byte, c.Size)
 	for i := range payload {
 		payload[i] = byte('a' + (int(seed)+i)%26)
@@ -187,7 +204,7 @@ func runHitCase(c *hitCase, seed int64) KV {
 		"code": int(res.Code), "err_empty": res.Error == "", "body_len": len(res.Body), "body_prefix_ok": bytes.HasPrefix(payload, res.Body) || len(res.Body) == 0,
 		"bytes_in": res.BytesIn, "bytes_out": res.BytesOut, "error": res.Error,
 		"headers_ok": reflect.DeepEqual(res.Headers, rt.respHdr) || (c.Policy == "nofollow" && c.Chain > 0 && res.Headers.Get("Location") != "")}
-	o["req_seen"] = rt.first != nil
+	o["req_seen"], o["last_req_body_len"] = rt.first != nil, rt.lastLen
 	if rq := rt.first; rq != nil {
 		o["req_method_url_ok"] = rq.Method == tgt.Method && rq.URL.String() == tgt.URL
 		o["req_body_len"], o["req_body_ok"] = len(rt.firstBuf), bytes.Equal(rt.firstBuf, tgt.Body)
